@@ -5,6 +5,7 @@ mod bcodec;
 mod conn;
 mod e2e02;
 mod hand;
+mod lag;
 mod meta;
 mod mi;
 mod tr;
@@ -20,6 +21,7 @@ use util::Rng;
 fn run_line(prop: &str, args: &[&str]) -> String {
     match prop {
         "C02" | "C19" | "C11" | "C01" if args[0] == "hist" || args[0] == "cand" => sess::run12(args),
+        "C02" if args[0] == "lag" => lag::op_lag(args[1].parse().unwrap(), args[2].parse().unwrap()),
         "C02" => e2e02::run(args),
         "C03" => meta::run03(args),
         "C04" => meta::run04(args),
@@ -52,6 +54,10 @@ fn gen(prop: &str, rng: &mut Rng, n: usize) -> Vec<String> {
             v.extend(sess::gen12(rng, n * 25));
             // the connection bookkeeping around it (candidates, re-announce): model Swarm/Cand, theorems T5
             v.extend(sess::gen_cand(rng, n * 5));
+            // a connection whose transport is ready late, after more announcements than the broadcast channel retains
+            v.push("lag 40 35".to_string());
+            v.push(format!("lag {} {}", 36 + rng.below(30), 33 + rng.below(3)));
+            v.push("lag 12 3".to_string());
             v
         }
         "C03" => meta::gen03(rng, n),
